@@ -246,7 +246,10 @@ func (e *Executor) getTaskFunc(
 		// - The cache is enabled (enableCache)
 		// - The output checks pass (outputCheckErr == nil), otherwise the target needs to run again
 		if target.HasCacheHit && !isTainted && !target.SkipsCache() && e.enableCache && outputCheckErr == nil {
-			if e.loadOutputsMode == config.LoadOutputsMinimal {
+			// A result that does not list the declared outputs (e.g. one recorded by a build with the cache
+			// disabled) cannot be restored later: it is not a hit in minimal mode either, the attempt to load
+			// it below fails like in mode all and the target is executed
+			if e.loadOutputsMode == config.LoadOutputsMinimal && e.registry.ValidateTargetResult(target, targetResult) == nil {
 				// Important: Set the output hash so that descendants can compute their change hashes
 				target.OutputHash = targetResult.OutputHash
 				update(worker.Status(fmt.Sprintf("%s: cache hit. skipped loading %s because load_outputs=minimal.", target.Label, console.FCountOutputs(len(target.AllOutputs())))))
